@@ -525,8 +525,66 @@ def run_doc_case(case, res):
                 scenario(copy.deepcopy(doc), i2, use_base, None, res, {"kind": "one", "doc": doc, "inc": i2, "base": use_base, "mode": None, "desc": "in include: " + desc}, "in include: " + desc)
 
 
+def run_supports_caller(res):
+    """a plain-Python namespace function decorated with runtime.supports_caller is a callee like any def: when an
+    exception passes through it and is handled, `caller` of the code around it is what it was before"""
+    import sys
+
+    rt = _st["runtime"]
+    L = _st["TemplateLookup"]
+    state = {"fn_raises": False}
+
+    class Planted(Exception):
+        pass
+
+    mod = type(sys)("verif_c13_ns")
+
+    @rt.supports_caller
+    def wrapc(context):
+        context.write("W[")
+        if state["fn_raises"]:
+            raise Planted("in function")
+        context["caller"].body()
+        context.write("]")
+        return ""
+
+    mod.wrapc = wrapc
+    sys.modules["verif_c13_ns"] = mod
+
+    def raiser():
+        raise Planted("in body")
+
+    text = ('<%namespace name="m" module="verif_c13_ns"/>'
+            '<%def name="outer()">O(${caller.body()}|${caller.body()})</%def>'
+            "<%self:outer>\n% try:\n<%m:wrapc>in ${raiser() if not quiet else 'ok'}</%m:wrapc>\n% except Exception as e_:\ncaught\n% endtry\nB</%self:outer>"
+            "${'C1' if caller else 'C0'}")
+    for fn_raises, quiet, exp in ((False, False, "O(W[in caught B|W[in caught B)C0"), (True, False, "O(W[ caught B|W[ caught B)C0"), (False, True, "O(W[in ok] B|W[in ok] B)C0")):
+        state["fn_raises"] = fn_raises
+        res.evaluations += 1
+        res.count("supports_caller_scenarios")
+        lk = L()
+        lk.put_string("sc.html", text)
+        buf = io.StringIO()
+        c = rt.Context(buf, raiser=raiser, quiet=quiet)
+        mon = rendermon.Monitor()
+        try:
+            with mon:
+                lk.get_template("sc.html").render_context(c)
+            out = " ".join(buf.getvalue().split())
+        except Exception as e:
+            out = "%s: %s" % (type(e).__name__, e)
+        what = "supports_caller function (raises itself: %s, body raises: %s)" % (fn_raises, not quiet and not fn_raises)
+        if "".join(out.split()) != "".join(exp.split()):
+            res.violate("caller-after-handled-exception", "%s: rendered %r, expected %r\n%s" % (what, out, exp, text))
+        if len(c.caller_stack) != 0 or c.caller_stack.nextcaller is not None or len(c._buffer_stack) != 1:
+            res.violate("context-stacks-after-render", "%s: caller stack depth %d, nextcaller %r, buffer stack depth %d after the render" % (
+                what, len(c.caller_stack), c.caller_stack.nextcaller, len(c._buffer_stack)))
+        res.nontrivial("c13-supports-caller", fn_raises, quiet)
+
+
 def gen_cases(tier, seed):
-    n = 48 if tier == "quick" else 1500
+    yield {"kind": "supports_caller"}
+    n = 36 if tier == "quick" else 1500
     per = 2
     for i in range(n // per):
         yield {"kind": "docs", "seed": seed, "index": i, "n": per, "depth": 2 if tier == "quick" else 3}
@@ -534,7 +592,9 @@ def gen_cases(tier, seed):
 
 def run_case(case):
     res = common.CaseResult()
-    if case["kind"] == "docs":
+    if case["kind"] == "supports_caller":
+        run_supports_caller(res)
+    elif case["kind"] == "docs":
         run_doc_case(case, res)
     elif case["kind"] == "one":
         scenario(case["doc"], case["inc"], case["base"], case["mode"], res, case, case["desc"], base_exc=case.get("base_exc", False))
